@@ -114,32 +114,32 @@ pub open spec fn end_players(p: Seq<i8>, n: int) -> Seq<game::PlayerEnd> decreas
 //@fn src/io/slippi/de.rs | - | game_end | ret=res | sub=/r.to_vec()/slice_to_vec_u8(*r)/
 	ensures
 		res is Ok ==> res->Ok_0.bytes.0@ == (*old(r))@ /*[C05.end_raw_block_retained]*/,
-		res is Ok ==> (*old(r))@.len() >= 1 && endmethod_of((*old(r))@[0]) == Some(res->Ok_0.method) /*[C05.end_method_at_0]*/,
-		(*old(r))@.len() >= 1 && endmethod_of((*old(r))@[0]) is None ==> res is Err,
+		res is Ok ==> (*old(r))@.len() >= 1 && endmethod_of(be_u8((*old(r))@, 0)) == Some(res->Ok_0.method) /*[C05.end_method_at_0]*/,
+		(*old(r))@.len() >= 1 && endmethod_of(be_u8((*old(r))@, 0)) is None ==> res is Err,
 		res is Ok ==> (res->Ok_0.lras_initiator is Some) == ((*old(r))@.len() >= 2) /*[C05.lras_present_iff_len_ge_2]*/,
-		res is Ok && (*old(r))@.len() >= 2 ==> res->Ok_0.lras_initiator->Some_0 == (if (*old(r))@[1] == 255 { None::<Port> } else { port_of((*old(r))@[1]) }) && ((*old(r))@[1] == 255 || port_of((*old(r))@[1]) is Some) /*[C05.lras_at_1]*/,
+		res is Ok && (*old(r))@.len() >= 2 ==> res->Ok_0.lras_initiator->Some_0 == (if be_u8((*old(r))@, 1) == 255 { None::<Port> } else { port_of(be_u8((*old(r))@, 1)) }) && (be_u8((*old(r))@, 1) == 255 || port_of(be_u8((*old(r))@, 1)) is Some) /*[C05.lras_at_1]*/,
 		res is Ok ==> (res->Ok_0.players is Some) == ((*old(r))@.len() >= 3) /*[C05.placements_present_iff_more_bytes]*/,
 		res is Ok && (*old(r))@.len() >= 3 ==> (*old(r))@.len() >= 6
-			&& res->Ok_0.players->Some_0@ == end_players(Seq::new(4, |i: int| (*old(r))@[2 + i] as i8), 4) /*[C05.placements_at_2_to_5]*/,
+			&& res->Ok_0.players->Some_0@ == end_players(Seq::new(4, |i: int| be_i8((*old(r))@, 2 + i)), 4) /*[C05.placements_at_2_to_5]*/,
 //@closure 1
 		|r: &mut &[u8]| -> (out: Result<Option<Port>>)
-			ensures (*old(r))@.len() >= 1 ==> (*final(r))@ == skip((*old(r))@, 1) && ((*old(r))@[0] == 255 ==> out == Ok::<Option<Port>, Error>(None))
-				&& ((*old(r))@[0] != 255 && port_of((*old(r))@[0]) is Some ==> out == Ok::<Option<Port>, Error>(Some(port_of((*old(r))@[0])->Some_0)))
-				&& ((*old(r))@[0] != 255 && port_of((*old(r))@[0]) is None ==> out is Err),
+			ensures (*old(r))@.len() >= 1 ==> (*final(r))@ == skip((*old(r))@, 1) && (be_u8((*old(r))@, 0) == 255 ==> out == Ok::<Option<Port>, Error>(None))
+				&& (be_u8((*old(r))@, 0) != 255 && port_of(be_u8((*old(r))@, 0)) is Some ==> out == Ok::<Option<Port>, Error>(Some(port_of(be_u8((*old(r))@, 0))->Some_0)))
+				&& (be_u8((*old(r))@, 0) != 255 && port_of(be_u8((*old(r))@, 0)) is None ==> out is Err),
 //@closure 2
 		|r: &mut &[u8]| -> (out: Result<Vec<game::PlayerEnd>>)
-			ensures out is Ok ==> (*old(r))@.len() >= 4 && (*final(r))@ == skip((*old(r))@, 4) && out->Ok_0@ == end_players(Seq::new(4, |i: int| (*old(r))@[i] as i8), 4),
+			ensures out is Ok ==> (*old(r))@.len() >= 4 && (*final(r))@ == skip((*old(r))@, 4) && out->Ok_0@ == end_players(Seq::new(4, |i: int| be_i8((*old(r))@, i)), 4),
 //@after let players = if_more
 	proof {
 		let b = (*old(r))@;
-		if b.len() >= 6 { lemma_skip_skip(b, 1, 1); assert(Seq::new(4, |i: int| skip(b, 2)[i] as i8) =~= Seq::new(4, |i: int| b[2 + i] as i8)); }
+		if b.len() >= 6 { lemma_skip_skip(b, 1, 1); assert(Seq::new(4, |i: int| be_i8(skip(b, 2), i)) =~= Seq::new(4, |i: int| be_i8(b, 2 + i))); }
 	}
 //@before let placements
 		let ghost r0 = *r;
 		proof { broadcast use shim_core::lemma_skip_skip; }
 //@loop 1
 		invariant n <= 4, NUM_PORTS == 4, err__ is None ==> out__@ == end_players(placements@, n as int),
-			placements@ == Seq::new(4, |i: int| r0@[i] as i8),
+			placements@ == Seq::new(4, |i: int| be_i8(r0@, i)),
 		decreases 4 - n + (if err__ is None { 1int } else { 0int }),
 //@end
 
@@ -154,16 +154,40 @@ pub fn player_bytes<const N: usize, const M: usize>(r: &mut &[u8]) -> (res: Resu
 		(*old(r))@.len() < N * M ==> res is Err,
 { unimplemented!() }
 
-// player(): per-port record parser (its own contract: see below / startend_player); here a stub so that game_start's
-// contract can say WHICH slices of the block each port's player is built from
-pub uninterp spec fn player_spec(port: Port, v0: Seq<u8>, is_teams: bool, v1_0: Option<Seq<u8>>, v1_3: Option<Seq<u8>>, name: Option<Seq<u8>>, code: Option<Seq<u8>>, v3_11: Option<Seq<u8>>) -> Option<Option<Player>>;
+// player(): per-port record parser; what it returns, field by field, is the contract player_fields_ok below
 pub open spec fn opt_arr<const K: usize>(o: Option<[u8; K]>) -> Option<Seq<u8>> { match o { Some(a) => Some(a@), None => None } }
-#[verifier::external_body]
-fn player(port: Port, v0: &[u8; 36], is_teams: bool, v1_0: Option<[u8; 8]>, v1_3: Option<[u8; 16]>, v3_9_name: Option<[u8; 31]>, v3_9_code: Option<[u8; 10]>, v3_11: Option<[u8; 29]>) -> (res: Result<Option<Player>>)
+// UTF-8 C string in a 29-byte field: bytes before the first NUL (default 28)
+pub open spec fn cstr_len(s: Seq<u8>, dflt: int) -> int {
+	if exists|i: int| 0 <= i < s.len() && s[i] == 0 { choose|i: int| 0 <= i < s.len() && s[i] == 0 && forall|j: int| 0 <= j < i ==> s[j] != 0 } else { dflt }
+}
+pub open spec fn ucf_code_ok(x: u32) -> bool { x <= 2 }
+// every exposed player field equals the value at its spec offset (spec/game_start_layout.json, players section)
+pub open spec fn player_fields_ok(p: Player, port: Port, v0: Seq<u8>, is_teams: bool, v1_0: Option<Seq<u8>>, v1_3: Option<Seq<u8>>, name: Option<Seq<u8>>, code: Option<Seq<u8>>, v3_11: Option<Seq<u8>>) -> bool {
+	&&& p.port == port
+	&&& p.character == be_u8(v0, 0) /*[C05.player.character_at_0]*/
+	&&& playertype_of(be_u8(v0, 1)) == Some(p.r#type) /*[C05.player.type_at_1]*/
+	&&& p.stocks == be_u8(v0, 2) /*[C05.player.stocks_at_2]*/
+	&&& p.costume == be_u8(v0, 3) /*[C05.player.costume_at_3]*/
+	&&& (p.team is Some) == is_teams && (is_teams ==> p.team->Some_0.shade == be_u8(v0, 7) && p.team->Some_0.color == be_u8(v0, 9)) /*[C05.player.team_iff_teams]*/
+	&&& p.handicap == be_u8(v0, 8) /*[C05.player.handicap_at_8]*/
+	&&& p.bitfield == be_u8(v0, 12) /*[C05.player.bitfield_at_12]*/
+	&&& (p.cpu_level is Some) == (p.r#type == PlayerType::Cpu) && (p.cpu_level is Some ==> p.cpu_level->Some_0 == be_u8(v0, 15)) /*[C05.player.cpu_level_iff_cpu]*/
+	&&& p.offense_ratio == be_f32(v0, 24) && p.defense_ratio == be_f32(v0, 28) && p.model_scale == be_f32(v0, 32) /*[C05.player.ratios_at_24_28_32]*/
+	&&& (p.ucf is Some) == (v1_0 is Some) /*[C05.player.ucf_iff_v1_0]*/
+	&&& (v1_0 is Some ==> dashback_code(p.ucf->Some_0.dash_back) == be_u32(v1_0->Some_0, 0) && shielddrop_code(p.ucf->Some_0.shield_drop) == be_u32(v1_0->Some_0, 4)) /*[C05.player.ucf_at_0_4]*/
+	&&& (p.name_tag is Some) == (v1_3 is Some) && (v1_3 is Some ==> field_text(v1_3->Some_0) == Some(p.name_tag->Some_0.0@)) /*[C19.name_tag_field]*/
+	&&& (p.netplay is Some) == (name is Some && code is Some)
+	&&& (p.netplay is Some ==> field_text(name->Some_0) == Some(p.netplay->Some_0.name.0@) && field_text(code->Some_0) == Some(p.netplay->Some_0.code.0@)) /*[C19.netplay_name_code_fields]*/
+	&&& (p.netplay is Some ==> (p.netplay->Some_0.suid is Some) == (v3_11 is Some)
+			&& (v3_11 is Some ==> utf8_decode(v3_11->Some_0.subrange(0, cstr_len(v3_11->Some_0, 28))) == Some(p.netplay->Some_0.suid->Some_0@))) /*[C05.player.suid]*/
+}
+pub open spec fn dashback_code(d: Option<DashBack>) -> u32 { match d { None => 0, Some(DashBack::Ucf) => 1, Some(DashBack::Arduino) => 2 } }
+pub open spec fn shielddrop_code(d: Option<ShieldDrop>) -> u32 { match d { None => 0, Some(ShieldDrop::Ucf) => 1, Some(ShieldDrop::Arduino) => 2 } }
+//@fn src/io/slippi/de.rs | - | player | ret=res | sub=/let r#type = /let type__ = / | sub=/match r#type {/match type__ {/ | sub=/Ok(r#type.map(|r#type| Player {/Ok(type__.map(|ty__| Player {/ | sub=/		r#type,/		r#type: ty__,/ | sub=/v3_11.iter().position(|&x| x == 0).unwrap_or(28)/first_index_of(&v3_11, 0).unwrap_or(28)/ | sub=/std::str::from_utf8(/str_from_utf8(/ | sub=/result.map(String::from).map_err(invalid_data)/utf8_result_to_string(result)/
 	ensures
-		res is Ok == (player_spec(port, v0@, is_teams, opt_arr(v1_0), opt_arr(v1_3), opt_arr(v3_9_name), opt_arr(v3_9_code), opt_arr(v3_11)) is Some),
-		res is Ok ==> res->Ok_0 == player_spec(port, v0@, is_teams, opt_arr(v1_0), opt_arr(v1_3), opt_arr(v3_9_name), opt_arr(v3_9_code), opt_arr(v3_11))->Some_0,
-{ unimplemented!() }
+		res is Ok ==> (res->Ok_0 is Some) == (playertype_of(be_u8(v0@, 1)) is Some) /*[C05.player_listed_iff_type_human_cpu_demo]*/,
+		res is Ok && res->Ok_0 is Some ==> player_fields_ok(res->Ok_0->Some_0, port, v0@, is_teams, opt_arr(v1_0), opt_arr(v1_3), opt_arr(v3_9_name), opt_arr(v3_9_code), opt_arr(v3_11)) /*[C05.player_fields]*/,
+//@end
 
 // ---- Game Start: contract transcribed from spec/game_start_layout.json (offsets index the raw block) ----
 pub uninterp spec fn utf8_decode(b: Seq<u8>) -> Option<Seq<char>>;
@@ -184,37 +208,35 @@ pub open spec fn recs<const K: usize, const M: usize>(a: [[u8; K]; M], b: Seq<u8
 pub open spec fn opt_rec(b: Seq<u8>, present: bool, base: int, k: int, i: int) -> Option<Seq<u8>> {
 	if present { Some(b.subrange(base + k * i, base + k * i + k)) } else { None }
 }
-// the player of port i as a function of the block: the per-port slices named by the spec table
-pub open spec fn port_player(b: Seq<u8>, i: int) -> Option<Option<Player>> {
-	player_spec(port_of_byte(i as u8), b.subrange(100 + 36 * i, 136 + 36 * i), b[12] != 0,
+// the players list: ports 0..n in port order; port i is listed iff its type byte is human/CPU/demo, and is then built from
+// exactly its own slices of the block (36-byte record @100+36i, UCF @320+8i, name tag @352+16i, netplay name @420+31i,
+// connect code @544+10i, Slippi UID @584+29i; each tail present iff the block is longer than where the tail starts)
+pub open spec fn port_fields_ok(p: Player, b: Seq<u8>, i: int) -> bool {
+	player_fields_ok(p, port_of_byte(i as u8), b.subrange(100 + 36 * i, 136 + 36 * i), be_u8(b, 12) != 0,
 		opt_rec(b, b.len() > 320, 320, 8, i), opt_rec(b, b.len() > 352, 352, 16, i),
 		opt_rec(b, b.len() > 420, 420, 31, i), opt_rec(b, b.len() > 420, 544, 10, i), opt_rec(b, b.len() > 584, 584, 29, i))
 }
-// players are listed for ports 0..n in port order, a port without a player (type byte not human/CPU/demo) is left out
-pub open spec fn start_players(b: Seq<u8>, n: int) -> Seq<Player> decreases n {
-	if n <= 0 { Seq::empty() } else {
-		let rest = start_players(b, n - 1);
-		match port_player(b, n - 1) { Some(Some(p)) => rest.push(p), _ => rest }
-	}
+pub open spec fn players_match(ps: Seq<Player>, b: Seq<u8>, n: int) -> bool decreases n {
+	if n <= 0 { ps.len() == 0 } else if playertype_of(be_u8(b, 100 + 36 * (n - 1) + 1)) is Some {
+		ps.len() > 0 && port_fields_ok(ps.last(), b, n - 1) && players_match(ps.drop_last(), b, n - 1)
+	} else { players_match(ps, b, n - 1) }
 }
-pub open spec fn start_players_ok(b: Seq<u8>, n: int) -> bool decreases n {
-	if n <= 0 { true } else { start_players_ok(b, n - 1) && port_player(b, n - 1) is Some }
-}
-pub open spec fn tail_bool(b: Seq<u8>, off: int) -> Option<bool> { if b.len() > off { Some(b[off] != 0) } else { None } }
+pub open spec fn tail_bool(b: Seq<u8>, off: int) -> Option<bool> { if b.len() > off { Some(be_u8(b, off) != 0) } else { None } }
 
-//@fn src/io/slippi/de.rs | - | game_start | ret=res | inline_if_more | sub=/r.to_vec()/slice_to_vec_u8(*r)/ | sub=/buf.iter().position(|&x| x == 0).unwrap_or(50)/first_index_of(&buf, 0).unwrap_or(50)/ | sub=/std::str::from_utf8(/str_from_utf8(/ | sub=/result.map(String::from).map_err(invalid_data)/utf8_result_to_string(result)/ | sub=/let r#match = /let match__ = / | sub=/		r#match,/		r#match: match__,/
+// game_start is checked twice on the same body: once for the block-level fields, once for the players list
+//@fn src/io/slippi/de.rs | - | game_start | ret=res | twin=__fields | inline_if_more | sub=/r.to_vec()/slice_to_vec_u8(*r)/ | sub=/buf.iter().position(|&x| x == 0).unwrap_or(50)/first_index_of(&buf, 0).unwrap_or(50)/ | sub=/std::str::from_utf8(/str_from_utf8(/ | sub=/result.map(String::from).map_err(invalid_data)/utf8_result_to_string(result)/ | sub=/let r#match = /let match__ = / | sub=/		r#match,/		r#match: match__,/
 	ensures
 		res is Ok ==> ({
 			let b = (*old(r))@;
 			let s = res->Ok_0;
 			&&& b.len() >= 320
 			&&& s.bytes.0@ == b /*[C05.start_raw_block_retained]*/
-			&&& s.slippi.version == Version(b[0], b[1], b[2]) /*[C05.version_at_0]*/
+			&&& s.slippi.version == Version(be_u8(b, 0), be_u8(b, 1), be_u8(b, 2)) /*[C05.version_at_0]*/
 			&&& s.bitfield@ == b.subrange(4, 8) /*[C05.bitfield_at_4]*/
-			&&& s.is_raining_bombs == (b[10] != 0) /*[C05.raining_bombs_at_10]*/
-			&&& s.is_teams == (b[12] != 0) /*[C05.is_teams_at_12]*/
-			&&& s.item_spawn_frequency == b[15] as i8 /*[C05.item_spawn_frequency_at_15]*/
-			&&& s.self_destruct_score == b[16] as i8 /*[C05.self_destruct_score_at_16]*/
+			&&& s.is_raining_bombs == (be_u8(b, 10) != 0) /*[C05.raining_bombs_at_10]*/
+			&&& s.is_teams == (be_u8(b, 12) != 0) /*[C05.is_teams_at_12]*/
+			&&& s.item_spawn_frequency == be_i8(b, 15) /*[C05.item_spawn_frequency_at_15]*/
+			&&& s.self_destruct_score == be_i8(b, 16) /*[C05.self_destruct_score_at_16]*/
 			&&& s.stage == be_u16(b, 18) /*[C05.stage_at_18]*/
 			&&& s.timer == be_u32(b, 20) /*[C05.timer_at_20]*/
 			&&& s.item_spawn_bitfield@ == b.subrange(39, 44) /*[C05.item_spawn_bitfield_at_39]*/
@@ -222,27 +244,49 @@ pub open spec fn tail_bool(b: Seq<u8>, off: int) -> Option<bool> { if b.len() > 
 			&&& s.random_seed == be_u32(b, 316) /*[C05.random_seed_at_316]*/
 			&&& s.is_pal == tail_bool(b, 416) /*[C05.is_pal_at_416_iff_len_gt_416]*/
 			&&& s.is_frozen_ps == tail_bool(b, 417) /*[C05.frozen_ps_at_417_iff_len_gt_417]*/
-			&&& (s.scene is Some) == (b.len() > 418) && (b.len() > 418 ==> b.len() >= 420 && s.scene->Some_0.minor == b[418] && s.scene->Some_0.major == b[419]) /*[C05.scene_at_418]*/
-			&&& (s.language is Some) == (b.len() > 700) && (b.len() > 700 ==> language_of(b[700]) == Some(s.language->Some_0)) /*[C05.language_at_700]*/
+			&&& (s.scene is Some) == (b.len() > 418) && (b.len() > 418 ==> b.len() >= 420 && s.scene->Some_0.minor == be_u8(b, 418) && s.scene->Some_0.major == be_u8(b, 419)) /*[C05.scene_at_418]*/
+			&&& (s.language is Some) == (b.len() > 700) && (b.len() > 700 ==> language_of(be_u8(b, 700)) == Some(s.language->Some_0)) /*[C05.language_at_700]*/
 			&&& (s.r#match is Some) == (b.len() > 701) && (b.len() > 701 ==> b.len() >= 760
 					&& s.r#match->Some_0.game == be_u32(b, 752) && s.r#match->Some_0.tiebreaker == be_u32(b, 756)) /*[C05.match_at_701]*/
-			&&& start_players_ok(b, 4) && s.players@ == start_players(b, 4) /*[C05.players_by_port_from_their_slices]*/
 			// a block that ends inside an optional tail is rejected (length classes 320, 352, 416, 417, 418, 420, 584, 700, 701, 760)
 			&&& (b.len() == 320 || b.len() == 352 || b.len() == 416 || b.len() == 417 || b.len() == 418 || b.len() == 420 || b.len() == 584 || b.len() == 700 || b.len() == 701 || b.len() >= 760) /*[C05.length_classes]*/
 		}),
 //@loop 1
+		invariant n <= 4, NUM_PORTS == 4,
+		decreases 4 - n + (if err__ is None { 1int } else { 0int }),
+//@end
+//@fn src/io/slippi/de.rs | - | game_start | ret=res | twin=__players | inline_if_more | sub=/r.to_vec()/slice_to_vec_u8(*r)/ | sub=/buf.iter().position(|&x| x == 0).unwrap_or(50)/first_index_of(&buf, 0).unwrap_or(50)/ | sub=/std::str::from_utf8(/str_from_utf8(/ | sub=/result.map(String::from).map_err(invalid_data)/utf8_result_to_string(result)/ | sub=/let r#match = /let match__ = / | sub=/		r#match,/		r#match: match__,/
+	ensures
+		res is Ok ==> ({
+			let b = (*old(r))@;
+			let s = res->Ok_0;
+			&&& b.len() >= 320
+			&&& players_match(s.players@, b, 4) /*[C05.players_by_port_from_their_slices]*/
+		}),
+//@loop 1
 		invariant
 			n <= 4, NUM_PORTS == 4, (*old(r))@.len() >= 320,
-			is_teams == ((*old(r))@[12] != 0),
+			is_teams == (be_u8((*old(r))@, 12) != 0),
 			recs(players_v0, (*old(r))@, 100),
 			(players_v1_0 is Some) == ((*old(r))@.len() > 320), players_v1_0 is Some ==> (*old(r))@.len() >= 352 && recs(players_v1_0->Some_0, (*old(r))@, 320),
 			(players_v1_3 is Some) == ((*old(r))@.len() > 352), players_v1_3 is Some ==> (*old(r))@.len() >= 416 && recs(players_v1_3->Some_0, (*old(r))@, 352),
 			(players_v3_9 is Some) == ((*old(r))@.len() > 420), players_v3_9 is Some ==> (*old(r))@.len() >= 584 && recs(players_v3_9->Some_0.0, (*old(r))@, 420) && recs(players_v3_9->Some_0.1, (*old(r))@, 544),
 			(players_v3_11 is Some) == ((*old(r))@.len() > 584), players_v3_11 is Some ==> (*old(r))@.len() >= 700 && recs(players_v3_11->Some_0, (*old(r))@, 584),
-			err__ is None ==> out__@ == start_players((*old(r))@, n as int) && start_players_ok((*old(r))@, n as int),
+			err__ is None ==> players_match(out__@, (*old(r))@, n as int),
 		decreases 4 - n + (if err__ is None { 1int } else { 0int }),
+//@before n += 1
+		proof {
+			if err__ is None {
+				let b = (*old(r))@;
+				let i = n as int;
+				if playertype_of(be_u8(b, 100 + 36 * i + 1)) is Some { assert(out__@.drop_last() =~= out0); } else { assert(out__@ =~= out0); }
+			}
+		}
+//@before let players =
+	let ghost mut out0: Seq<Player> = Seq::empty();
 //@before player(
 		proof {
+			out0 = out__@;
 			let b = (*old(r))@;
 			let i = n as int;
 			assert(players_v0@[i]@ =~= b.subrange(100 + 36 * i, 136 + 36 * i));
@@ -255,6 +299,7 @@ pub open spec fn tail_bool(b: Seq<u8>, off: int) -> Option<bool> { if b.len() > 
 			if players_v3_11 is Some { assert(players_v3_11->Some_0@[i]@ =~= b.subrange(584 + 29 * i, 584 + 29 * i + 29)); }
 		}
 //@end
+
 
 } // verus!
 fn main() {}
